@@ -8,8 +8,12 @@
    commute -- refutations with reachable witnesses (each replayed on the real Workflow by
    harness/p_c02.py).  The full statement C02_full is kept visible and is not proved. *)
 From Coq Require Import List NArith Bool.
-From SV Require Import lib.Bytes model.Graph model.GraphDump model.GraphInv model.Commute
-                       proofs.CommuteProofs proofs.CommuteDefine.
+From SV Require Import lib.Bytes model.Graph model.GraphDump model.GraphInv model.Commute model.Dispatch
+                       proofs.CommuteProofs proofs.CommuteDefine proofs.CommuteSched
+                       proofs.CommuteComplete proofs.CommuteCycle.
+From SV Require lib.Closure.
+From SV Require model.Claims proofs.ClaimsProofs.
+From SV Require Import proofs.CommuteText.
 Import ListNotations.
 Open Scope N_scope.
 
@@ -287,3 +291,178 @@ Example C02_define_define_example :
   find_node (KStep, [99]) s = None /\ find_node (KStep, [100]) s = None /\
   both_orders r1 r2 s = VCommute.
 Proof. vm_compute. repeat split; reflexivity. Qed.
+
+(* ---- 4'. resumed: the whole canonical dump, stored step hashes included --------------------- *)
+
+(* The dump the E2/E3 comparisons use (node rows, file rows, step rows with their has-hash flag,
+   dependency rows, the step_hash rows d_shash, env rows) is unchanged by the restart transaction. *)
+Theorem C02_resume_noop_dump :
+  forall s, quiescent_success_b s = true ->
+    dump_of (apply_op s OpResetInterrupted) = dump_of s /\
+    d_shash (dump_of (apply_op s OpResetInterrupted)) = shash s.
+Proof. exact resume_noop_dump. Qed.
+
+(* ---- 6. completion versus a declaration by another running step ---------------------------- *)
+
+(* completion_commutes_partial.  The completion transaction of an ATTACHED step l that reports
+   success and no output hashes (pre = hs = []: a plan step) and has no OUTDATED file product,
+   against a static declaration by any creator c (any state of the declared paths: absent, orphaned,
+   stale).  Pst s follows from inv_b (C02_inv_implies_Pst); nodes_uniq sb (unique node keys after the
+   declaration) follows from inv_b sb (C02_inv_implies_nodes_uniq; inv_b is preserved, C09).  If both
+   are applied in both orders the graphs agree on every look-up, the stored step hashes included. *)
+Theorem C02_completion_commutes_partial :
+  forall (s sa sb s12 s21 : st) (l : str) (cc : cause) (wd : bool) (c : key) (ps : list str),
+    Pst s -> not_file c -> NoDup ps -> attached (KStep, l) s = true ->
+    no_outdated_products l s -> nodes_uniq sb ->
+    step_op (OpExecEnd l [] cc [] true wd) s = Ok sa -> step_op (OpDeclareStatic c ps) sa = Ok s12 ->
+    step_op (OpDeclareStatic c ps) s = Ok sb -> step_op (OpExecEnd l [] cc [] true wd) sb = Ok s21 ->
+    st_equiv s12 s21.
+Proof. exact completion_commutes_partial. Qed.
+
+Theorem C02_inv_implies_nodes_uniq : forall s, inv_b s = true -> nodes_uniq s.
+Proof. exact inv_b_nodes_uniq. Qed.
+
+(* non-vacuity: plan step p (attached, running, no file products) completes while a declares x *)
+Example C02_completion_example :
+  let s := run_ops ex_boot (init_st 3) in
+  let re := OpExecEnd [80] [] CSucceeded [] true false in
+  let rd := OpDeclareStatic (KStep, [97]) [[120]] in
+  attached (KStep, [80]) s = true /\ file_products_in [80] is_outdated s = [] /\
+  inv_b (apply_op s rd) = true /\ both_orders re rd s = VCommute /\
+  has_hash [80] (apply_op (apply_op s rd) re) = true.
+Proof. vm_compute. repeat split; reflexivity. Qed.
+
+(* ---- 7. interleavings; the dispatch side ---------------------------------------------------- *)
+
+(* Two interleavings of the same per-step request sequences -- every transaction has an issuer, and
+   for every issuer c the subsequence of c's transactions is the same in both -- are related by
+   adjacent swaps of transactions of different issuers.  (So "swaps different_issuers" in C02_full
+   and in the theorems above IS "any two interleavings, each step's own order preserved".) *)
+Theorem C02_interleavings_are_swaps :
+  forall l1 l2, all_issued l1 -> all_issued l2 -> same_projections l1 l2 ->
+                swaps different_issuers l1 l2.
+Proof. exact interleavings_swaps. Qed.
+
+(* Instantiated for the fragment with diamond + congruence (static declarations by a set Cs of
+   attached steps): ANY two interleavings are accepted or refused alike and, if accepted, end in
+   graphs that agree on every look-up.  No bound on the number of steps, requests or paths. *)
+Theorem C02_interleavings_static_partial :
+  forall (Cs : list key) (l1 l2 : list op) (s : st),
+    Pcs Cs s -> Forall (static_by Cs) l1 -> Forall (static_by Cs) l2 -> same_projections l1 l2 ->
+    all_ok l1 s = all_ok l2 s /\ (all_ok l1 s = true -> st_equiv (run_ops l1 s) (run_ops l2 s)).
+Proof. exact interleavings_static. Qed.
+
+(* The abstract scheduler (model/Dispatch.v): J job slots, a resource pool of capacity cap, an
+   arbitrary eligibility test elig on the set of finished steps, and arbitrary durations (at every
+   point ANY waiting job that fits may be started, ANY running job may commit its next transaction
+   or finish).  Whatever it does, what step c commits during a build is c's script in program order. *)
+Theorem C02_build_commits_scripts :
+  forall J cap elig jobs tr c,
+    wf_jobs jobs -> build_trace J cap elig jobs tr -> proj c tr = pend c (init_cfg jobs).
+Proof. exact build_projection. Qed.
+
+(* Hence two builds of the same jobs under ANY two settings (--jobs, resource capacity, eligibility,
+   durations / dispatch order) commit interleavings of the same per-step sequences. *)
+Theorem C02_builds_are_interleavings :
+  forall jobs J1 cap1 elig1 tr1 J2 cap2 elig2 tr2,
+    wf_jobs jobs -> build_trace J1 cap1 elig1 jobs tr1 -> build_trace J2 cap2 elig2 jobs tr2 ->
+    swaps different_issuers tr1 tr2.
+Proof. exact builds_swaps. Qed.
+
+(* A build exists for every job count >= 1 and every capacity that admits each job alone (the -j1
+   reference: jobs in list order, each job's transactions en bloc). *)
+Theorem C02_sequential_build_exists :
+  forall J cap jobs, (1 <= J)%nat -> Forall (fun j => jres j <= cap) jobs ->
+    build_trace J cap (fun _ _ => true) jobs (sequential_trace jobs).
+Proof. exact sequential_build. Qed.
+
+(* The dispatch side for the proved fragment: jobs that declare static files (each under its own,
+   attached step), built under any two settings of job count, resource capacity, eligibility and
+   durations: accepted or refused alike and, if accepted, graphs that agree on every look-up. *)
+Theorem C02_dispatch_independent_static_partial :
+  forall (Cs : list key) (jobs : list job) (s : st) J1 cap1 elig1 tr1 J2 cap2 elig2 tr2,
+    Pcs Cs s -> Forall (static_job Cs) jobs -> NoDup (map jkey jobs) ->
+    build_trace J1 cap1 elig1 jobs tr1 -> build_trace J2 cap2 elig2 jobs tr2 ->
+    all_ok tr1 s = all_ok tr2 s /\ (all_ok tr1 s = true -> st_equiv (run_ops tr1 s) (run_ops tr2 s)).
+Proof. exact dispatch_independent_static. Qed.
+
+(* non-vacuity: two jobs (a: two requests, needs 1 token; b: one request, needs 2 tokens), the
+   sequential build under -j1 with 2 tokens and an interleaved build under -j2 with 3 tokens *)
+Definition ex_jobs : list job :=
+  [mkJob (KStep, [97]) [OpDeclareStatic (KStep, [97]) [[120]; [121]]; OpDeclareStatic (KStep, [97]) [[123]]] 1;
+   mkJob (KStep, [98]) [OpDeclareStatic (KStep, [98]) [[122]]] 2].
+Example C02_dispatch_example :
+  let s := run_ops ex_boot (init_st 3) in
+  let Cs := [(KStep, [97]); (KStep, [98])] in
+  let ra := OpDeclareStatic (KStep, [97]) [[120]; [121]] in
+  let rb := OpDeclareStatic (KStep, [98]) [[122]] in
+  let rc := OpDeclareStatic (KStep, [97]) [[123]] in
+  Forall (static_job Cs) ex_jobs /\ NoDup (map jkey ex_jobs) /\
+  build_trace 1 2 (fun _ _ => true) ex_jobs [ra; rc; rb] /\
+  build_trace 2 3 (fun k f => match f with [] => true | _ => negb (key_eqb k (KStep, [97])) end) ex_jobs [ra; rb; rc] /\
+  all_ok [ra; rc; rb] s = true.
+Proof.
+  cbv zeta. split; [|split; [|split; [|split]]].
+  - repeat constructor; cbn; auto; intros H; repeat (destruct H as [H|H]; try discriminate); try contradiction.
+  - repeat constructor; cbn; intros H; repeat (destruct H as [H|H]; try discriminate); try contradiction.
+  - apply (sequential_build 1 2 ex_jobs); [auto | repeat constructor; cbn; discriminate].
+  - eexists. split.
+    + eapply sr_silent; [apply (sm_start _ _ _ [] (nth 0 ex_jobs (mkJob root_key [] 0)) [(nth 1 ex_jobs (mkJob root_key [] 0), JWaiting)]);
+                         cbn; [auto | discriminate | reflexivity]|].
+      eapply sr_silent; [apply (sm_start _ _ _ [(_, JRunning _)] (nth 1 ex_jobs (mkJob root_key [] 0)) []);
+                         cbn; [auto | discriminate | reflexivity]|].
+      eapply sr_commit; [apply (sm_commit _ _ _ [] _ _ _ [_])|].
+      eapply sr_commit; [apply (sm_commit _ _ _ [_] _ _ _ [])|].
+      eapply sr_commit; [apply (sm_commit _ _ _ [] _ _ _ [_])|].
+      eapply sr_silent; [apply (sm_finish _ _ _ [] _ [_])|].
+      eapply sr_silent; [apply (sm_finish _ _ _ [_] _ [])|].
+      apply sr_nil.
+    + repeat constructor.
+  - vm_compute. reflexivity.
+Qed.
+
+(* ---- 7'. towards congruence of define_step / amend_step: the cycle checks -------------------- *)
+
+(* would_cycle (the model of RECURSE_SINKS behind check_sources_acyclic / add_source) is
+   reachability over the dependency edges, with the fuel the model gives it ... *)
+Theorem C02_cycle_check_is_reachability :
+  forall sink srcs s,
+    would_cycle sink srcs s = true <-> exists x, In x srcs /\ Closure.path (dep_edges s) sink x.
+Proof. exact would_cycle_spec. Qed.
+
+(* ... hence it cannot tell two states apart that agree on every look-up (the edge lists may be
+   permuted): the closure argument that congruence of define_step and amend_step needs. *)
+Theorem C02_cycle_check_congruent :
+  forall sink srcs s s', st_equiv s s' -> would_cycle sink srcs s = would_cycle sink srcs s'.
+Proof. exact would_cycle_equiv. Qed.
+
+(* ---- 8. the text of an error about two conflicting declarations ----------------------------- *)
+
+(* On the model of the declaration layer (model/Claims.v; message templates, verbs and hints are
+   regenerated from workflow.py into gen/GenClaims.v on every run): for ANY two single-path
+   declarations among {static file, amended output, amended volatile output, define_step with one
+   output / one volatile output} -- any creators, any two paths, any two labels -- from any state
+   that satisfies the invariant of C08 and in which each request is acceptable on its own, the two
+   arrival orders are both accepted or both rejected, and when rejected the printed text is the
+   same.  Refuted pair classes (open findings of C08, replayed there): glob pattern versus a planned
+   output (pair-asymmetry:glob-after-planned-output-accepted, D3). *)
+Theorem C02_conflict_text_order_independent :
+  forall gm gr st A B,
+    ClaimsProofs.Inv gm gr st -> ClaimsProofs.steps_closed (Claims.steps st) -> creq_ok A -> creq_ok B ->
+    ClaimsProofs.accepted (Claims.step gm false gr st (creq_req A)) = true ->
+    ClaimsProofs.accepted (Claims.step gm false gr st (creq_req B)) = true ->
+    ClaimsProofs.accepted (Claims.run gm false gr st [creq_req A; creq_req B]) =
+    ClaimsProofs.accepted (Claims.run gm false gr st [creq_req B; creq_req A]) /\
+    err_text (Claims.run gm false gr st [creq_req A; creq_req B]) =
+    err_text (Claims.run gm false gr st [creq_req B; creq_req A]).
+Proof. exact conflict_text_order_independent. Qed.
+
+(* ... in particular in every state reachable from the empty workflow *)
+Theorem C02_conflict_text_reachable :
+  forall gm gr st A B,
+    ClaimsProofs.reachable gm false gr st -> creq_ok A -> creq_ok B ->
+    ClaimsProofs.accepted (Claims.step gm false gr st (creq_req A)) = true ->
+    ClaimsProofs.accepted (Claims.step gm false gr st (creq_req B)) = true ->
+    err_text (Claims.run gm false gr st [creq_req A; creq_req B]) =
+    err_text (Claims.run gm false gr st [creq_req B; creq_req A]).
+Proof. exact conflict_text_reachable. Qed.
